@@ -117,8 +117,8 @@ theorem attrsF_end (f : Nat) (sc : Bool) (rest : Str) :
     simp [spanP, this]
   show attrsStep (attrsF f) _ = _
   cases sc
-  · simp only [attrsStep, tagEnd, List.cons_append, List.nil_append, h1]; simp [tagEndAt, h1]
-  · simp only [attrsStep, tagEnd, List.cons_append, List.nil_append, h2]; simp [tagEndAt, h2]
+  · simp only [attrsStep, tagEnd]; simp [tagEndAt, h1]
+  · simp only [attrsStep, tagEnd]; simp [tagEndAt, h2]
 
 theorem attrAt_one (k v X : Str) (hk : k ≠ []) (hkc : ∀ c ∈ k, isAttrNameChar c = true) (hv : '"' ∉ v) :
     attrAt (k ++ '=' :: '"' :: v ++ '"' :: X) = some ((k, v), X) := by
